@@ -34,7 +34,24 @@ def name_fitting(r, max_bytes: int = 32, min_chars: int = 2, pool: str = None) -
     return s
 
 
+PROTOCOL_CONSTANTS = ["fef0", "f0fe", "fef00000", "fef0000", "f0fe00", "fef0f0fe", "0a", "3030", "7c", "00"]
+
+
+def coincidence(r, nbytes: int) -> bytes:
+    """nbytes of random data that happen to contain one of the protocol's own constants (magic, terminator,
+    zeroed header, newline, key padding, separator) at an arbitrary nibble offset."""
+    n = 2 * nbytes
+    c = r.choice(PROTOCOL_CONSTANTS)
+    s = "".join(r.choice("0123456789abcdef") for _ in range(n))
+    if len(c) >= n:
+        return bytes.fromhex((c + s)[:n])
+    pos = r.randrange(0, n - len(c) + 1)
+    return bytes.fromhex((s[:pos] + c + s[pos + len(c):])[:n])
+
+
 def device_id(r) -> str:
+    if r.random() < 0.08:
+        return coincidence(r, 3).hex()
     edge = ["000000", "ffffff", "fef0f0", "f0fe00", "aaaaaa", "0000fe"]
     s = r.choice(edge) if r.random() < 0.1 else f"{r.randrange(1 << 24):06x}"
     return s.upper() if r.random() < 0.1 else s
@@ -46,6 +63,8 @@ def device_key(r) -> str:
 
 
 def session(r) -> bytes:
+    if r.random() < 0.08:
+        return coincidence(r, 4)
     if r.random() < 0.08:
         return r.choice([bytes(4), b"\xff" * 4, bytes.fromhex("fef0f0fe"), bytes.fromhex("f0fe0000"), bytes.fromhex("00000001")])
     return r.randbytes(4)
@@ -110,9 +129,25 @@ def irset(r, toggle: bool = None, special: bool = None, density: float = None, l
                     keys.append(b + fan + "_d1")  # swing entry without its plain sibling
     # keep the declared temperature range visible in the plain keys
     if toggle:
-        for k in list(keys):
+        plain = list(keys)
+        for k in plain:
             if r.random() < density:
                 keys.append("on_" + k)
+        if r.random() < 0.4:
+            # power-changing codes need not mirror the plain ones: swing / fan variants that exist only in on_ form
+            for k in plain:
+                for extra in ("_d1", "_f1_d1", "_f2"):
+                    cand = "on_" + k + extra
+                    if not k.endswith("_d1") and r.random() < 0.15 and cand not in keys and k.count("_f") + extra.count("_f") <= 1:
+                        keys.append(cand)
+        if r.random() < 0.25:
+            # one mode whose swing codes exist only in power-changing form
+            m0 = MODE_PREFIX[r.choice(modes)]
+            plain_d1 = [k for k in keys if k.startswith(m0) and k.endswith("_d1")]
+            keys = [k for k in keys if k not in plain_d1]
+            for k in [k for k in keys if k.startswith(m0) and "_f" in k and not k.endswith("_d1")]:
+                if "on_" + k + "_d1" not in keys and r.random() < 0.8:
+                    keys.append("on_" + k + "_d1")
         if r.random() < 0.3:
             keys.append("off")      # legal, unusual: a toggle set that also ships a plain off code (never used for a toggle remote)
     else:
@@ -121,10 +156,17 @@ def irset(r, toggle: bool = None, special: bool = None, density: float = None, l
         keys += ["FUN_d0", "FUN_d1"]
     # key order in the file: shuffled, as written (mode by mode, temperatures ascending), or with an extreme temperature
     # stored exactly once and first/last among the temperature keys (range scans depend on order and multiplicity)
-    style = r.choice(["shuffled", "shuffled", "shuffled", "as_written", "min_once_first", "max_once_first", "min_once_last", "single_temp"])
+    style = r.choice(["shuffled", "shuffled", "shuffled", "as_written", "min_once_first", "max_once_first", "min_once_last", "single_temp",
+                      "non_mode_first", "prefixed_last"])
+    if style == "non_mode_first":
+        # a sorted listing starts with FUN_d0 / off / on_...: the first entry is not a mode key
+        keys.sort(key=lambda k: (0 if k[:2] in ("FU", "of", "on") else 1, k))
+    elif style == "prefixed_last":
+        # all power-changing codes listed after all plain ones (grouped by kind, not next to their plain twins)
+        keys.sort(key=lambda k: (1 if k.startswith("on_") else 0))
     if style == "shuffled":
         r.shuffle(keys)
-    elif style != "as_written":
+    elif style not in ("as_written", "non_mode_first", "prefixed_last"):
         tkeys = [k for k in keys if k[:2] in ("ar", "ah") and k[2:4].isdigit()]
         if tkeys:
             temps = sorted({int(k[2:4]) for k in tkeys})
